@@ -423,3 +423,32 @@ def int_lt0(atom_, pol):
         c = {x: -v for x, v in c.items()}
         k = -k - 1
     return frozenset((x, v) for x, v in c.items() if v != 0), k
+
+
+# ---- boolean expression tables (P11 on expressions) -------------------------------------------------------------------------------
+def bool_atoms(t, acc=None):
+    """atoms of a boolean normal form built from &&, ||, !"""
+    if acc is None:
+        acc = []
+    if t[0] == 'bin' and t[1] in ('&&', '||'):
+        bool_atoms(t[2], acc)
+        bool_atoms(t[3], acc)
+    elif t[0] == 'not':
+        bool_atoms(t[1], acc)
+    else:
+        a, _ = ex.atom(t)
+        if a not in acc:
+            acc.append(a)
+    return acc
+
+
+def bool_eval(t, val):
+    """evaluate a boolean normal form under val: {atom: bool}"""
+    if t[0] == 'bin' and t[1] == '&&':
+        return bool_eval(t[2], val) and bool_eval(t[3], val)
+    if t[0] == 'bin' and t[1] == '||':
+        return bool_eval(t[2], val) or bool_eval(t[3], val)
+    if t[0] == 'not':
+        return not bool_eval(t[1], val)
+    a, pol = ex.atom(t)
+    return val[a] == pol
